@@ -170,6 +170,8 @@ def generate(seed, prop):
             a_ = rng.randrange(len(curves))
             zs.append([a_, rng.randrange(len(curves[a_])), rng.randrange(grid["n"])])
         world["zeros"] = zs
+    if prop == "C12" and rng.random() < 0.15:
+        world["bare"] = True          # results built directly from arrays, without the meta entries process() would add
     if prop == "C13":
         from . import hvsrobj_td as TD
         world["records"] = TD.draw_records_world(rng, len(curves[0]))
@@ -421,24 +423,28 @@ def build_world(world):
     st.meta0 = dict(world.get("meta") or {})
     st.objs = {}
     k = st.kind
+    bare = bool(world.get("bare"))
+
+    def pm(name):
+        return {} if bare else {"processing_method": name}
     if k in ("traditional", "multi"):
         if world.get("ctor") == "from_curves":      # the other public way to build a traditional result
             st.objs["trad"] = H.HvsrTraditional.from_hvsr_curves(
-                [H.HvsrCurve(st.f, a) for a in st.amps[0]], meta={**st.meta0, "processing_method": "traditional"})
+                [H.HvsrCurve(st.f, a) for a in st.amps[0]], meta={**st.meta0, **pm("traditional")})
         else:
-            caller_meta = {**st.meta0, "processing_method": "traditional"}
+            caller_meta = {**st.meta0, **pm("traditional")}
             st.objs["trad"] = H.HvsrTraditional(st.f, st.amps[0], meta=caller_meta)
             # the caller builds a second result (another time of day, say) from the very same station-meta dict
             st.sibling = H.HvsrTraditional(st.f, st.amps[0][::-1].copy(), meta=caller_meta)
     if k in ("azimuthal", "multi"):
-        hs = [H.HvsrTraditional(st.f, a, meta={"processing_method": "traditional", "source of azimuth": i})
+        hs = [H.HvsrTraditional(st.f, a, meta={**pm("traditional"), "source of azimuth": i})
               for i, a in enumerate(st.amps)]
         st.src_members = hs            # the caller keeps the objects it built the container from
         st.objs["az"] = H.HvsrAzimuthal(hs, st.azimuths,
-                                        meta={**st.meta0, "processing_method": "azimuthal"})
+                                        meta={**st.meta0, **pm("azimuthal")})
     if k in ("diffuse", "multi"):
         st.objs["diff"] = H.HvsrDiffuseField(st.f, st.amps[0][0],
-                                             meta={**st.meta0, "processing_method": "diffuse_field"})
+                                             meta={**st.meta0, **pm("diffuse_field")})
     if k == "multi":
         st.objs["curves"] = [H.HvsrCurve(st.f, a) for a in st.amps[0]]
     st.cur_range = (None, None)
